@@ -184,4 +184,13 @@ PROPS = {
         trusted=["oracle, not modelled: the url crate (the model starts from scheme/host_str/port, re-checked per case), name resolution of localhost", "real sockets; listeners need ports 389/636/38901 (the lane reports 'skipped' if they cannot be bound)"],
         assumptions=[],
     ),
+    "C14": dict(
+        groups=[("sync", 120, 4000)],
+        gen=["sync"],
+        exact_lanes=["sync"],
+        rule="scripts of 1-5 operations (the 11 kinds of the req lane, searches collected or streamed through EntryStream next()/result()/last_id(), random controls / timeouts / search options, unbind last) run twice - through LdapConn/EntryStream and through Ldap/SearchStream - each over its own Unix socket pair against a scripted server (success, error codes 4/10/32/49, close after 1-3 requests, silence with an 80 ms timeout); compared: canonical request transcripts and every result, error class, stream item, last_id() and is_closed(). non-trivial = distinct script",
+        trivial=["skipped"],
+        trusted=["translator tools/translate_sync.py (regex/brace matching over src/sync.rs) -> coq/gen/SyncTable.v", "real Unix socket pairs, a server thread per run, wall-clock timeouts only in the 'silent' behaviour"],
+        assumptions=["THIN MODEL: block_on and the private current-thread runtime are not modelled; GSSAPI/NTLM binds are not compiled in"],
+    ),
 }
